@@ -43,7 +43,12 @@ class LxmlEventHandler(XmlHandler):
                 load_dtd=self.parser.config.load_dtd,
             )
 
-        return self.process_context(ctx, ns_map)
+        try:
+            return self.process_context(ctx, ns_map)
+        except UnicodeDecodeError as e:
+            # In recovery mode libxml2 lets references to surrogate code points
+            # through and lxml can not decode the character data
+            raise ParserError(e)
 
     def process_context(
         self,
